@@ -710,7 +710,7 @@ fn expect_reply(model: &mut Model, keys: &[String], r: &Req) -> Reply {
 // C06: one connection, sequential model
 
 pub fn run_c06(ctx: &mut Ctx, scn: &NetScn, seed: u64) {
-    let run = match run_net(ctx, scn, seed, true) {
+    let mut run = match run_net(ctx, scn, seed, false) {
         Some(r) => r,
         None => return,
     };
@@ -741,6 +741,57 @@ pub fn run_c06(ctx: &mut Ctx, scn: &NetScn, seed: u64) {
         }
         ctx.observe_bytes(&c.received);
     }
+    // in a share of runs the repository's own Client then talks to the same server over a
+    // second connection (same segmentation and timing model), continuing the same model
+    if ctx.out.violations.is_empty() && mix(seed, 0xC11E) % 3 == 0 {
+        ctx.sim.probe("real_client_exchange");
+        let mut r = Rng::new(mix(seed, 0x5EA1));
+        let nops = 1 + r.usize_below(8);
+        let mut ops = Vec::new();
+        for j in 0..nops {
+            let k = r.usize_below(scn.keys.len());
+            ops.push(match r.below(3) {
+                0 => Req::Set(k, Val { tag: 700_000 + j as u32, len: *r.pick(&[0, 1, 9, 300, 8200]) }),
+                1 => Req::Get(k),
+                _ => Req::Del((0..1 + r.usize_below(3)).map(|_| r.usize_below(scn.keys.len())).collect()),
+            });
+        }
+        let keys = scn.keys.clone();
+        let ops2 = ops.clone();
+        let results: Result<Vec<Reply>, String> = run.srv.rt.block_on(async move {
+            let mut c = bitcask::net::Client::connect(format!("127.0.0.1:{}", PORT)).await.map_err(|e| format!("connect: {}", e))?;
+            let mut out = Vec::new();
+            for op in &ops2 {
+                match op {
+                    Req::Set(k, v) => {
+                        c.set(keys[*k].clone(), Bytes::from(v.bytes())).await.map_err(|e| format!("set: {}", e))?;
+                        out.push(Reply::Simple("OK".into()));
+                    }
+                    Req::Get(k) => match c.get(keys[*k].clone()).await.map_err(|e| format!("get: {}", e))? {
+                        Some(b) => out.push(Reply::Bulk(b.to_vec())),
+                        None => out.push(Reply::Null),
+                    },
+                    Req::Del(ks) => {
+                        let n = c.del(ks.iter().map(|k| keys[*k].clone()).collect()).await.map_err(|e| format!("del: {}", e))?;
+                        out.push(Reply::Int(n));
+                    }
+                }
+            }
+            Ok(out)
+        });
+        match results {
+            Ok(rs) => {
+                for (i, (op, got)) in ops.iter().zip(rs.iter()).enumerate() {
+                    let want = expect_reply(&mut model, &scn.keys, op);
+                    if *got != want {
+                        ctx.viol("wrong-reply", format!("the repository's Client: operation #{} {} returned {} but the model says {}", i, short_req(&scn.keys, op), resp::show(got), resp::show(&want)), "");
+                        break;
+                    }
+                }
+            }
+            Err(e) => ctx.viol("client-failed", format!("the repository's Client failed against the server: {}", e), ""),
+        }
+    }
     if ctx.out.violations.is_empty() {
         if let Some(m) = final_scan(ctx, &run, &scn.keys) {
             if let Some(d) = store::diff_models(&m, &model) {
@@ -748,6 +799,8 @@ pub fn run_c06(ctx: &mut Ctx, scn: &NetScn, seed: u64) {
             }
         }
     }
+    run.srv.sh.fire_shutdown();
+    wait_server(ctx, &mut run);
     if !run.server_returned && ctx.out.violations.is_empty() {
         ctx.viol("server-did-not-stop", "Server::run did not return within 60 simulated seconds after the shutdown signal although every client had finished".into(), "");
     }
